@@ -58,7 +58,7 @@ func c01World(tp *Tape, env *Env) (*Plan, *Violation) {
 	if tp.Chance(20, "hubworld") {
 		cfg.WJump, cfg.WJumpE, cfg.WStop = 0, 0, 0
 		prog = g.hubProgram()
-		env.St.inc("worlds.hub_loop", 1)
+		env.St.probe("world.hub_loop")
 	} else {
 		prog = g.program()
 	}
@@ -137,6 +137,30 @@ func c01World(tp *Tape, env *Env) (*Plan, *Violation) {
 
 	sh := shapeOf(prog)
 	nontrivial := sh.maxNest >= 2 || sh.jumpNested || sh.optsEndBody
+	if sh.maxNest >= 3 {
+		env.St.probe("program.nesting_depth_3")
+	}
+	if sh.jumpNested {
+		env.St.probe("program.jump_inside_nested_body")
+	}
+	if sh.optsEndBody {
+		env.St.probe("program.options_end_a_body")
+	}
+	if len(w.Readers) > 1 {
+		env.St.probe("world.nodes_over_several_readers")
+	}
+	for _, ops := range leaves {
+		polled := false
+		for _, o := range ops {
+			if o.K == "next" && o.Exp != nil && o.Exp.Kind == rWaiting {
+				polled = true
+			}
+		}
+		if polled {
+			env.St.probe("world.command_polled_while_pending")
+			break
+		}
+	}
 	progHash := hashJSON(prog)
 	bubble := needsBubble(&w, nil, prog)
 	for li, ops := range leaves {
